@@ -46,6 +46,9 @@ type cfsSess struct {
 	known  []string // paths that were created successfully at some point
 	prefix string   // non-empty: every path this session uses lies under this directory
 	tagset map[string]bool
+	// stratum "namespace churn": one operation in three is a mkdir or a rename between this
+	// session's directories (lock-order hazards against concurrent Flush/MarshalManifest/Readdir)
+	churn bool
 }
 
 func (se *cfsSess) pathWith(r *vRand, known []string) string {
@@ -231,6 +234,13 @@ func (se *cfsSess) randomOp(r *vRand, focus bool, i int, readonly bool, add func
 	defer func() { se.hs, se.known = hs, known }()
 	tag := se.tag
 	k := r.Intn(100)
+	if se.churn && !focus && !readonly && len(hs) > 0 && r.Chance(1, 3) {
+		if len(known) < 2 || r.Chance(1, 4) {
+			k = 85 // mkdir
+		} else {
+			k = 90 // rename
+		}
+	}
 	if focus {
 		// stratum "data path": a file with stored segments, several handles; mostly write/seek/read
 		switch {
